@@ -7,7 +7,8 @@ package main
 //        K: O AskOnce | T AskOnceWithTimeout(30 s: never fires) | S AskOnceWithTimeout(15 ms, parked at
 //           ask.timeout.fired) | C AskChannel + receive;   rcap = capacity of the reply channel
 //        ops: a<i> start asker i | r let the actor enter Reply | w<i> wait until asker i's timer fired |
-//             u<i> release asker i (close(done), return the timeout)
+//             u<i> release asker i (close(done), return the timeout) | d<i> a kind-D asker (AskChannel, caller only
+//             holding the channel) starts to read, after the head parameter late=<ms> has elapsed
 //   askstress mcap=<k> n=<n> m=<m> rcap=<c> to=<µs> seed=<s>   free running + monitors
 //
 // The actor's effect waits for a token before calling Reply (= parked at ask.reply.beforeSend, the first
@@ -41,6 +42,7 @@ const (
 	c13Got
 	c13RetV
 	c13RetT
+	c13Holding
 )
 
 type c13Asker struct {
@@ -117,6 +119,9 @@ func (s *c13Sim) trySend(i int) bool {
 		return false
 	}
 	a.pc = c13Waiting
+	if a.kind == 'D' {
+		a.pc = c13Holding
+	}
 	return true
 }
 
@@ -124,7 +129,7 @@ func (s *c13Sim) settle1() bool {
 	for i := range s.as { // finish
 		if s.as[i].pc == c13Got {
 			s.as[i].pc = c13RetV
-			if s.as[i].kind != 'C' {
+			if s.as[i].kind != 'C' && s.as[i].kind != 'D' {
 				s.as[i].chClosed = true
 			}
 			return true
@@ -195,6 +200,11 @@ func (s *c13Sim) op(tok string) (effective bool) {
 	case 'w':
 		if i < s.n && c13Short(s.as[i].kind) && s.as[i].pc == c13Waiting {
 			s.as[i].pc = c13Fired
+			effective = true
+		}
+	case 'd':
+		if i < s.n && s.as[i].pc == c13Holding {
+			s.as[i].pc = c13Waiting
 			effective = true
 		}
 	case 'u':
@@ -307,6 +317,12 @@ func c13RunAsk(line string) string {
 	}
 	toks := strings.Fields(head)
 	mcap, n, spec := c12KVInt(toks, "mcap"), c12KVInt(toks, "n"), c12KV(toks, "spec")
+	late := time.Duration(c12KVInt(toks, "late")) * time.Millisecond
+	readNow := make([]chan struct{}, n)
+	for i := range readNow {
+		readNow[i] = make(chan struct{})
+	}
+	readReleased := make([]bool, n)
 	specs := c13ParseSpec(spec, n)
 	const firedPoint = "ask.timeout.fired"
 
@@ -467,6 +483,10 @@ func c13RunAsk(line string) string {
 					case 'C':
 						ch := ask.AskChannel(actor)
 						setRes(i, "V"+strconv.Itoa(<-ch))
+					case 'D':
+						ch := ask.AskChannel(actor)
+						<-readNow[i] // the caller only holds the channel until the schedule says `d<i>`
+						setRes(i, "V"+strconv.Itoa(<-ch))
 					default:
 						to := c13Timeout(sp.kind)
 						t0 := time.Now()
@@ -493,6 +513,12 @@ func c13RunAsk(line string) string {
 				ctl.WaitAt("a"+strconv.Itoa(i), firedPoint, patience())
 			case 'u':
 				ctl.Release("a"+strconv.Itoa(i), firedPoint)
+			case 'd':
+				time.Sleep(late) // the reader is late: whatever the delay, the value must still arrive
+				if !readReleased[i] {
+					readReleased[i] = true
+					close(readNow[i])
+				}
 			}
 		}
 		got := await(hint, tok[0] == 'r')
@@ -523,6 +549,12 @@ func c13RunAsk(line string) string {
 	// cleanup: everything parked continues, every reply may be sent, then the actor is closed
 	ctl.Uninstall()
 	close(gateOpen)
+	for i := range readNow {
+		if !readReleased[i] {
+			readReleased[i] = true
+			close(readNow[i])
+		}
+	}
 	cleanupDeadline := time.Now().Add(1500 * time.Millisecond)
 	for _, t := range threads {
 		if t != nil {
@@ -698,6 +730,12 @@ func c13Drain(sim *c13Sim, ops []string) []string {
 			}
 		}
 		for i := range sim.as {
+			if sim.as[i].pc == c13Holding && (sim.as[i].buf > 0 || (sim.actor == 2 && sim.released && sim.req == i)) {
+				d := "d" + strconv.Itoa(i)
+				sim.op(d)
+				ops = append(ops, d)
+				progressed = true
+			}
 			if sim.as[i].pc == c13Fired {
 				u := "u" + strconv.Itoa(i)
 				sim.op(u)
@@ -712,12 +750,17 @@ func c13Drain(sim *c13Sim, ops []string) []string {
 	return ops
 }
 
-func c13Line(mcap, n int, spec string, ops []string) string {
+func c13Line(mcap, n int, spec string, ops []string) string { return c13LineLate(mcap, n, 0, spec, ops) }
+
+func c13LineLate(mcap, n, late int, spec string, ops []string) string {
 	sim := c13NewSim(mcap, n, spec)
 	for _, o := range ops {
 		sim.op(o)
 	}
 	ops = c13Drain(sim, append([]string{}, ops...))
+	if late > 0 {
+		return fmt.Sprintf("ask mcap=%d n=%d late=%d spec=%s: %s", mcap, n, late, spec, strings.Join(ops, " ; "))
+	}
 	return fmt.Sprintf("ask mcap=%d n=%d spec=%s: %s", mcap, n, spec, strings.Join(ops, " ; "))
 }
 
@@ -752,6 +795,29 @@ func c13Gen(tier string, rng *rand.Rand, emit func(string)) map[string]interface
 			}
 		}
 	}
+	// (1b) AskChannel with a LATE reader: the caller obtains the channel, the actor replies (and waits in Reply, or the
+	//      value waits in the buffer), the caller reads only after a delay — the value must arrive whatever the delay
+	type lateCase struct {
+		late int
+		spec string
+		ops  []string
+	}
+	lates := []lateCase{
+		{0, "D0p,O0o", []string{"a0", "r", "d0", "a1", "r"}}, {0, "D0n,C0p", []string{"a0", "d0", "r", "a1", "r"}},
+		{200, "D0g,O0n", []string{"a0", "r", "d0", "a1", "r"}}, {200, "D1o,T0o", []string{"a0", "r", "a1", "r", "d0"}},
+		{1500, "D0o,O0n", []string{"a0", "r", "d0", "a1", "r"}}, {3000, "D0n,T0p", []string{"a0", "r", "d0", "a1", "r"}},
+	}
+	if thorough {
+		for _, l := range []int{0, 200, 1500, 3000} {
+			for _, sp := range []string{"D0n,O0o", "D0g,C0p", "D0o,T0n", "D0p,O0n", "D2p,O0o"} {
+				lates = append(lates, lateCase{l, sp, []string{"a0", "r", "d0", "a1", "r"}}, lateCase{l, sp, []string{"a0", "a1", "r", "d0", "r"}})
+			}
+		}
+	}
+	for _, lc := range lates {
+		emit(c13LineLate(rng.Intn(2), 2, lc.late, lc.spec, lc.ops))
+		nDirected++
+	}
 	stats["directed_schedules"] = nDirected
 	// (2) random schedules: up to 5 askers, every op effective in the mini-simulation; an `r` towards a short-timeout
 	//     asker is only released after its timer was observed to have fired (w), otherwise the outcome would be a race
@@ -759,7 +825,7 @@ func c13Gen(tier string, rng *rand.Rand, emit func(string)) map[string]interface
 	if thorough {
 		nRand = 600
 	}
-	kinds := []string{"O0n", "O0p", "O1o", "C0g", "C0o", "C1p", "T0n", "T0o", "T2p", "S0n", "S0g", "S0o", "S0p", "S1o", "Z0n", "Z0p", "N0o", "N0g", "Y0p", "Z1o"}
+	kinds := []string{"O0n", "O0p", "O1o", "C0g", "C0o", "C1p", "T0n", "T0o", "T2p", "S0n", "S0g", "S0o", "S0p", "S1o", "Z0n", "Z0p", "N0o", "N0g", "Y0p", "Z1o", "D0p", "D0n", "D1o"}
 	for r := 0; r < nRand; r++ {
 		n := 1 + rng.Intn(5)
 		mcap := []int{0, 0, 1, 3}[rng.Intn(4)]
@@ -780,7 +846,7 @@ func c13Gen(tier string, rng *rand.Rand, emit func(string)) map[string]interface
 			case x < 9:
 				cand = "w" + strconv.Itoa(rng.Intn(n))
 			default:
-				cand = "u" + strconv.Itoa(rng.Intn(n))
+				cand = []string{"u", "d"}[rng.Intn(2)] + strconv.Itoa(rng.Intn(n))
 			}
 			if cand == "r" && sim.actor == 2 && c13Short(sim.as[sim.req].kind) && sim.as[sim.req].pc == c13Waiting {
 				cand = "w" + strconv.Itoa(sim.req)
